@@ -118,6 +118,8 @@ fn matrix_of(t: &Transform2) -> Vec<String> {
 pub fn dump() -> Value {
     let mut groups = vec![];
     for name in WallpaperGroups::variants().iter() {
+        // (a site built from a group that fails to parse must leave nothing behind for the next one)
+        crate::opt::failed_group_before();
         let g = get_wallpaper_group(WallpaperGroups::from_str(name).unwrap()).unwrap();
         let site = WyckoffSite::new(&g);
         let (ops, err): (Vec<Vec<String>>, Option<String>) = match &site {
